@@ -450,13 +450,33 @@ fn pick_phase(r: &mut Rng) -> f32 {
 pub fn random_history(r: &mut Rng, max_ticks: u64, above_fs: bool) -> History {
     let fs = pick_fs(r);
     let mut ops = vec![Op::SetFreq(pick_freq(r, fs, above_fs))];
+    let mut last_f = if let Op::SetFreq(x) = ops[0] { x } else { 0.0 };
     let n_ops = 4 + r.below(40);
     let mut budget = max_ticks;
     for _ in 0..n_ops {
         let op = match r.below(10) {
             0 => Op::Reset,
             1 | 2 => Op::SetPhase(pick_phase(r)),
-            3 | 4 => Op::SetFreq(pick_freq(r, fs, above_fs)),
+            3 | 4 => {
+                let fq = if r.chance(0.15) {
+                    // a nudge of a few ulps / of about 1e-7 Hz: a change however small must take effect
+                    let nudged = match r.below(3) {
+                        0 => f32::from_bits((last_f.to_bits() as i64 + r.range(-8, 8)).max(0) as u32),
+                        1 => last_f + (r.uniform(-1.2e-7, 1.2e-7) as f32),
+                        _ => last_f * (1.0 + r.uniform(-3e-7, 3e-7) as f32),
+                    };
+                    if nudged.is_finite() { nudged.max(0.0).min(fs) } else { last_f }
+                } else if r.chance(0.3) {
+                    // the frequency that the current counter step realises exactly (k*fs/2^24 for k = step-1, step, step+1),
+                    // i.e. what a "get_frequency" would report: asking for it again must follow the documented rule
+                    let k = (TWO24 * last_f as f64 / fs as f64).floor() + r.range(-1, 1) as f64;
+                    ((k.max(0.0) * fs as f64 / TWO24) as f32).min(fs)
+                } else {
+                    pick_freq(r, fs, above_fs)
+                };
+                last_f = fq;
+                Op::SetFreq(fq)
+            }
             5 => Op::Read(r.below(256) as u8),
             _ => {
                 let n = (1 + r.below(1 + budget / 4)).min(budget);
